@@ -110,6 +110,13 @@ class RuleAlias:
         return getattr(self._rep, name)
 
 
+def own_params(fn):
+    """parameter names without the bound first one of an instance / class method (a staticmethod or plain function has none)"""
+    ps = [a.arg for a in fn.args.args]
+    static = any(isinstance(d, ast.Name) and d.id == "staticmethod" for d in fn.decorator_list)
+    return ps[1:] if ps and ps[0] in ("self", "cls") and not static else ps
+
+
 def bind_named(fn, spec, skip_first=True, optional=()):
     """arguments for a call of `fn` from values the caller knows by the parameter names of the reference tree: [(name, value), ...].
     When the function still has parameters of those names they are bound by name (their order is the function's own business);
@@ -227,6 +234,10 @@ class Index:
                 raise AnalysisError(f"cannot parse {rel}: {e}")
             if rel.endswith(".py") and os.environ.get("ALLFEDSA_NO_CANON") != "1":
                 from .canon import canonicalise, namedtuples_as_tuples
+                from .canon import flatten_tuple_params
+                n_tp = flatten_tuple_params(tree, self._tuple_params()) if rel.startswith("src/") else 0
+                if n_tp:
+                    self.canon_counts["tuple parameters flattened"] = self.canon_counts.get("tuple parameters flattened", 0) + n_tp
                 nts_, rets_ = self._namedtuples()
                 n_nt = namedtuples_as_tuples(tree, nts_, rets_)
                 if n_nt:
@@ -506,6 +517,19 @@ class Index:
                         names.add(tok)
             self._anchors = names
         return self._anchors
+
+    def _tuple_params(self):
+        if getattr(self, "_tp", None) is None:
+            from .canon import tuple_param_table
+            raw = []
+            for r in self.py_files("src"):
+                try:
+                    with open(self.path(r), encoding="utf-8") as f:
+                        raw.append(ast.parse(f.read()))
+                except (SyntaxError, OSError):
+                    continue
+            self._tp = tuple_param_table(raw)
+        return self._tp
 
     def _namedtuples(self):
         if getattr(self, "_nt", None) is None:
